@@ -65,6 +65,11 @@ fn list_files(root: &Path) -> BTreeMap<String, Vec<u8>> {
         if let Ok(rd) = std::fs::read_dir(&d) {
             for e in rd.flatten() {
                 let p = e.path();
+                if std::fs::symlink_metadata(&p).map(|m| m.file_type().is_symlink()).unwrap_or(false) {
+                    // links are recorded by their target, never read through
+                    out.insert(p.strip_prefix(root).unwrap().display().to_string(), format!("-> {:?}", std::fs::read_link(&p).ok()).into_bytes());
+                    continue;
+                }
                 if p.is_dir() {
                     out.insert(format!("{}/", p.strip_prefix(root).unwrap().display()), vec![]);
                     stack.push(p);
@@ -136,7 +141,12 @@ fn place(dir: &Path, which: &str, loc: Loc, src_dir_rel: &str, stem: &str, senti
             let rel = format!("{}/x.hex", f);
             (Some(rel.clone()), dir.join(rel))
         }
-        Loc::DevFull => (Some("/dev/full".to_string()), PathBuf::from("/dev/full")),
+        Loc::DevFull => {
+            // (a link to /dev/full inside the run's directory, see report::dev_full_link)
+            let name = format!("full_device_{}", which);
+            let p = crate::report::dev_full_link(dir, &name);
+            (Some(name), p)
+        }
     }
 }
 
